@@ -16,6 +16,7 @@ import core
 import docbuild as db
 import clip_pixels as cp
 import extract_c15
+import extract_c15_comp
 from core import err_class
 
 MODES = ["PHOTOSHOP", "PAINT_TOOL_SAI", "CLIP_STUDIO_PAINT", "GIMP", "KRITA"]
@@ -744,6 +745,7 @@ def run_fixture_toggle(name, mode, ngroups, upto=None):
 def run(ctx: core.Run):
     gen = ctx.regenerate(extract_c15.gen_clip_modes)
     gen2 = ctx.regenerate(extract_c15.gen_clip_current)
+    gen3 = ctx.regenerate(extract_c15_comp.gen_clip_compositor)
     ctx.prove(["PsdVerif.Props.C15"])
     ctx.trusted_base += [
         "Lean 4.33 kernel; axioms allowed: propext, Classical.choice, Quot.sound (audited per theorem)",
@@ -975,7 +977,9 @@ def run(ctx: core.Run):
         "the real code (part 2) and the state model is run against every public call of those histories (part 3)",
         "defect found by part 2 with the fresh-open oracle and fixed in the repository (b2a7dfa): the Layer.blend_mode setter did "
         "not recompute although the pass tests the blend mode of every layer",
-        "stated in DESIGN, not proved here: compositor_honours - observed dynamically on pixel documents (compositor gate)",
+        "compositor_honours: the gate of Compositor.apply and the group box of Compositor._bbox are modelled (Model/ClipCompositor.lean), "
+        "tied to the source (compositor_gate_tied) and proved (compositor_honours_gate, group_box_spans_accepted); that the pixels "
+        "follow is observed dynamically (compositor gate by call counts, pixel documents under default and custom layer filters)",
         "defect found by part 2 and fixed in the repository (fix: recompute clipping relationships after structural edits "
         "and group blend-mode changes): every structural edit left clip_layers/_has_clip_target stale",
     ]
@@ -985,8 +989,10 @@ def run(ctx: core.Run):
                      "_clear_clipping_layers defaults", "CompatibilityMode members",
                      "the stored relation as state: clear over the visited layers, then the pass (Model/ClipState.lean)",
                      "every public mutator as a list of effects (raw mutations, recomputations with owner and tests) from the source",
-                     "the constructor's final recomputation"],
-        "search_only": ["compositor gate at composite/__init__.py:231"],
+                     "the constructor's final recomputation",
+                     "the compositor's gate (early returns of Compositor.apply), _apply_clip_layers' iteration, the group box of "
+                     "Compositor._bbox under a caller-supplied filter (regenerated, Generated/ClipCompositor.lean)"],
+        "search_only": ["what the compositor paints (pixel observation: painter oracle + cleared-flag twin; call counts of the gate)"],
         "abstract": ["what a structural edit does to the tree (any new tree in the theorem; read off the real objects in the "
                      "correspondence)"],
         "opaque": ["pixels of the composite (C11)"],
